@@ -11,13 +11,19 @@ LEAN_TARGETS = ["drv_step"]
 BINS = ["fullstep"]
 MODES = ["ising", "generic"]
 
-# (module, theorems) — the two halves cannot be imported into one Lean file (Qmc.maskOp / Qmc.Leg / Qmc.absR clashes)
+# (module, theorems) — the first two were written when the two halves could not be co-imported; Composed came after the cleanup
 THEOREMS = [
     ("QmcProofs.SamplerStep", ["Qmc.Sampler." + t for t in [
         "freeRefresh_eq", "isingTimestepWith_eq", "isingTimestepWith_pres", "isingTraceWith_inv", "isingRunWith_inv",
         "loopUpdate_loopCert", "stepLoop_eq", "loopK_stepOK", "genericTimestepWith_pres", "genericRunWith_inv"]]),
     ("QmcProofs.SamplerCluster", ["Qmc.Sampler." + t for t in [
         "clusterK_flipCert", "clusterK_clusterCert", "ising_clusterCert", "generic_clusterCert"]]),
+    # since the name-clash cleanup (design_notes/Cleanup.md) everything co-imports: the composition stated directly
+    # about the functions drv_step replays (exact cluster / loop kernels, C06/C07 invariants, kernel invariance)
+    ("QmcProofs.Composed", ["Qmc.Composed." + t for t in [
+        "clusterUpdate_is_step", "ising_clusterUpdate_is_step", "isingTimestep_pres", "isingTrace_inv", "isingRun_inv",
+        "genericTimestep_pres", "genericTrace_inv", "isingSpec_timestep_invariant", "isingSpec_timestep_invariant_hb",
+        "longitudinal_ne_longitudinalW_offdiag"]]),
 ]
 
 RULE = ("whole-timestep trajectories: real Ising samplers on 2..6 spins (multi-edges, isolated spins, J of both signs k/8, "
